@@ -570,19 +570,36 @@ class Visitor(ast.NodeVisitor):
         return result
 
     def visit_BoolOp(self, node: ast.BoolOp) -> Any:
-        """Recursively visit the operands and apply the operation on them."""
-        values = [self.visit(value_node) for value_node in node.values]
-
-        # Please see "NOTE ABOUT PLACEHOLDERS AND RE-COMPUTATION"
-        if any(value is PLACEHOLDER for value in values):
-            return PLACEHOLDER
-
-        if isinstance(node.op, ast.And):
-            result = functools.reduce(lambda left, right: left and right, values, True)
-        elif isinstance(node.op, ast.Or):
-            result = functools.reduce(lambda left, right: left or right, values, True)
-        else:
+        """Visit the operands in order and apply the operation on them, short-circuiting as Python does."""
+        if not isinstance(node.op, (ast.And, ast.Or)):
             raise NotImplementedError("Unhandled op of {}: {}".format(node, node.op))
+
+        result = None  # type: Optional[Any]
+        has_placeholder = False
+        for value_node in node.values:
+            value = self.visit(value_node)
+
+            # Please see "NOTE ABOUT PLACEHOLDERS AND RE-COMPUTATION"
+            if value is PLACEHOLDER:
+                has_placeholder = True
+
+            if has_placeholder:
+                # The outcome is unknown; the remaining operands are still visited so that
+                # the values independent of the placeholders are re-computed.
+                continue
+
+            result = value
+
+            # The remaining operands must not be evaluated: they are often defined only if the previous ones
+            # hold (*e.g.*, ``lst and lst[0] > 0``).
+            if isinstance(node.op, ast.And) and not result:
+                break
+
+            if isinstance(node.op, ast.Or) and result:
+                break
+
+        if has_placeholder:
+            return PLACEHOLDER
 
         self.recomputed_values[node] = result
         return result
